@@ -42,7 +42,7 @@ structure Tracker where
   buf : Chunks
   total : Nat
   payload : Bytes
-deriving Repr
+deriving Repr, DecidableEq
 
 def Tracker.init (seq : Nat) : Tracker := { seq := seq, buf := [], total := 0, payload := [] }
 
